@@ -147,9 +147,35 @@ func runC12(c *Ctx) {
 		ok := false
 		for _, r := range ret {
 			for _, g := range guardsOf(r.Block()) {
-				v, br := boolOf(g)
-				if call, isCall := v.(*ssa.Call); isCall && calleeOf(call) != nil && calleeOf(call).FullName() == "strings.Contains" && !br {
+				// the containment test in any of its spellings: !strings.Contains(x, "$"), !strings.ContainsRune(x, '$'),
+				// !strings.ContainsAny(x, "$"), strings.Index*(x, …) < 0 / == -1
+				var call *ssa.Call
+				if v, br := boolOf(g); v != nil && !br {
+					if cc, isCall := v.(*ssa.Call); isCall && calleeOf(cc) != nil {
+						switch calleeOf(cc).FullName() {
+						case "strings.Contains", "strings.ContainsRune", "strings.ContainsAny":
+							call = cc
+						}
+					}
+				}
+				if call == nil {
+					if op, x, y, okc := cmpOf(g); okc {
+						if cc, isCall := x.(*ssa.Call); isCall && calleeOf(cc) != nil && strings.HasPrefix(calleeOf(cc).FullName(), "strings.Index") {
+							if k, isK := constInt(y); isK && ((op == token.LSS && k == 0) || (op == token.EQL && k == -1)) {
+								call = cc
+							}
+						}
+					}
+				}
+				if call != nil && len(call.Call.Args) == 2 {
+					dollar := false
 					if s, isS := constString(call.Call.Args[1]); isS && s == "$" {
+						dollar = true
+					}
+					if k, isK := constInt(call.Call.Args[1]); isK && k == '$' {
+						dollar = true
+					}
+					if dollar {
 						// the tested string is the opaque value itself (a field of the parsed location), not a
 						// rewritten copy of it (e.g. with `$$` pairs removed)
 						hay := strip(call.Call.Args[0])
@@ -462,6 +488,7 @@ func runC12(c *Ctx) {
 	}
 	c.Check(okChanged, "a successful substitution always reports a change", p.Pos(findAndExpand.Pos()), "changed = true", "after substituting a provider value `changed` can be false (e.g. computed as output != input): a self-referential value stops the driver instead of running into the expansion bound, so the cycle is not reported")
 	runConfSubProvenance(c, "R6")
+	runC12Round3(c)
 }
 
 func guardedNilValue(b *ssa.BasicBlock, v ssa.Value) bool {
